@@ -268,6 +268,28 @@ def identity_really_fails(got, exp, model, mod, seed, extra_points=8, const_valu
                 pt = rand_pt()
                 pt[n] = val
                 points.append(pt)
+    # two unknowns zero at once (an extension-field coefficient (c0, c1) being zero needs both), and sums vanishing (a = -b)
+    if len(ints) <= 40:
+        import itertools
+        for a_, b_ in itertools.combinations(ints, 2):
+            pt = rand_pt()
+            pt[a_] = 0
+            pt[b_] = 0
+            points.append(pt)
+            pt2 = rand_pt()
+            pt2[b_] = (-pt2[a_]) % mod
+            points.append(pt2)
+        # four unknowns: two coefficient pairs that cancel (x = -y in the extension field)
+        if len(ints) <= 24:
+            pairs = [(ints[i], ints[i + 1]) for i in range(0, len(ints) - 1, 2)]
+            for (a0, a1), (b0, b1) in itertools.combinations(pairs, 2):
+                pt = rand_pt()
+                pt[b0] = (-pt[a0]) % mod
+                pt[b1] = (-pt[a1]) % mod
+                points.append(pt)
+                pt = rand_pt()
+                pt[a0] = pt[a1] = pt[b0] = pt[b1] = 0
+                points.append(pt)
     for pt in points:
         pt = dict(pt)
         if const_values:
